@@ -13,7 +13,7 @@ use serde::Serialize;
 use serde_json::{json, Value};
 use std::path::PathBuf;
 
-pub const MODEL: &str = "ns { P { name:String, n:Integer default 0, q:ns.Q nullable, qs:[ns.Q] nullable } Q { name:String } }";
+pub const MODEL: &str = "ns { P { name:String, n:Integer default 0, q:ns.Q nullable, qs:[ns.Q] nullable, f:Float nullable, b:Boolean nullable } Q { name:String } }";
 pub const NAMES: [&str; 4] = ["A", "B", "C", "D"];
 pub const ENTITIES: [&str; 2] = ["ns.P", "ns.Q"];
 
@@ -228,6 +228,9 @@ pub struct Universe {
     pub p_name: String,
     pub p_q: String,
     pub p_qs: String,
+    pub p_n: String,
+    pub p_f: String,
+    pub p_b: String,
     pub q_name: String,
 }
 
@@ -263,6 +266,9 @@ impl Universe {
             p_name: p.get_field("name").unwrap().short_name.clone(),
             p_q: p.get_field("q").unwrap().short_name.clone(),
             p_qs: p.get_field("qs").unwrap().short_name.clone(),
+            p_n: p.get_field("n").unwrap().short_name.clone(),
+            p_f: p.get_field("f").unwrap().short_name.clone(),
+            p_b: p.get_field("b").unwrap().short_name.clone(),
             q_name: q.get_field("name").unwrap().short_name.clone(),
             peers,
             keys,
